@@ -108,6 +108,46 @@ fn worker(rx: Receiver<Cmd>, tx: Sender<String>) {
     }
 }
 
+/// `vcheck c19-exec`: execute one schedule (JSON on stdin) in this fresh
+/// process with real threads in lock-step; print one result line per step.
+pub fn exec_child() {
+    engine::install_silent_panic_hook();
+    let mut input = String::new();
+    std::io::Read::read_to_string(&mut std::io::stdin(), &mut input).expect("read schedule");
+    let case: Case = serde_json::from_str(&input).expect("parse schedule");
+    let mut chans: BTreeMap<u8, (Sender<Cmd>, Receiver<String>, std::thread::JoinHandle<()>)> = BTreeMap::new();
+    let mut out = String::new();
+    for st in &case.steps {
+        let t = st.thread;
+        if !chans.contains_key(&t) {
+            let (ctx_tx, ctx_rx) = channel::<Cmd>();
+            let (res_tx, res_rx) = channel::<String>();
+            let h = std::thread::spawn(move || worker(ctx_rx, res_tx));
+            chans.insert(t, (ctx_tx, res_rx, h));
+        }
+        let (tx, rx, _) = chans.get(&t).unwrap();
+        tx.send(Cmd::Run(st.op.clone())).expect("worker alive");
+        let got = rx.recv().unwrap_or_else(|_| "worker died".to_string());
+        out.push_str(&got.replace('\n', " "));
+        out.push('\n');
+    }
+    for (_, (tx, _, h)) in chans {
+        let _ = tx.send(Cmd::Quit);
+        let _ = h.join();
+    }
+    print!("{out}");
+}
+
+fn run_in_fresh_process(case: &Case) -> Vec<String> {
+    use std::io::Write;
+    use std::process::{Command, Stdio};
+    let exe = std::env::current_exe().expect("current exe");
+    let mut child = Command::new(exe).arg("c19-exec").stdin(Stdio::piped()).stdout(Stdio::piped()).stderr(Stdio::null()).spawn().expect("spawn c19-exec");
+    child.stdin.take().unwrap().write_all(serde_json::to_string(case).unwrap().as_bytes()).expect("write schedule");
+    let out = child.wait_with_output().expect("wait c19-exec");
+    String::from_utf8_lossy(&out.stdout).lines().map(|l| l.to_string()).collect()
+}
+
 fn out_matches(got: &str, exp: &Exp) -> bool {
     // parse "Value(c @s)" / "Panic(..)"
     let out = if let Some(r) = got.strip_prefix("Value(") {
@@ -128,7 +168,7 @@ impl Prop for C19 {
         "C19"
     }
     fn rule(&self) -> String {
-        "Generated schedules: up to 4 logical threads and a global sequence of up to 40 steps (thread, op) with op in {set_default(mode), default(), round, div_rounded, mul_rounded, * with p+q > 18, / , Display with precision}; threads are real OS threads started lazily at their first step (so they start after others changed their mode) and driven in lock-step by the harness. \
+        "Generated schedules: up to 4 logical threads and a global sequence of up to 40 steps (thread, op) with op in {set_default(mode), default(), round, div_rounded, mul_rounded, * with p+q > 18, / , Display with precision}; threads are real OS threads started lazily at their first step (so they start after others changed their mode) and driven in lock-step by the harness; every schedule is executed in a fresh child process (vcheck c19-exec), so no process-wide state survives from one schedule to the next. \
          Operands are exact ties / near ties so the 8 modes give different answers. Oracle: model map thread -> mode (RoundHalfEven at thread start); every result must equal the exact result under the issuing thread's model mode; default() must return it. \
          Non-trivial: a set_default on one thread is followed by a rounding step on another thread whose model mode differs. Distinct: hash of the schedule."
             .into()
@@ -141,15 +181,11 @@ impl Prop for C19 {
     }
     fn cases(&self, tier: Tier) -> u64 {
         match tier {
-            Tier::Quick => 1 << 12,
-            Tier::Thorough => 1 << 17,
+            Tier::Quick => 1 << 14,
+            Tier::Thorough => 1 << 19,
         }
     }
-    fn max_jobs(&self) -> Option<usize> {
-        // each case owns real threads; a single harness worker keeps every
-        // schedule deterministic even if the code under test shares the mode
-        Some(1)
-    }
+
     fn strategy(&self, _tier: Tier) -> BoxedStrategy<Case> {
         (1u8..=4)
             .prop_flat_map(|k| proptest::collection::vec((0u8..k, arb_op()), 1..=40))
@@ -170,25 +206,21 @@ impl Prop for C19 {
     }
 
     fn check(&self, case: &Case, ctx: &mut Ctx) {
+        // every schedule runs in a fresh process: process-wide state that a
+        // defective implementation might keep cannot leak between cases
+        let results = run_in_fresh_process(case);
         let mut model: BTreeMap<u8, Mode> = BTreeMap::new();
-        let mut chans: BTreeMap<u8, (Sender<Cmd>, Receiver<String>, std::thread::JoinHandle<()>)> = BTreeMap::new();
         let mut any_set = false;
         let mut last_set_by: Option<u8> = None;
         for (idx, st) in case.steps.iter().enumerate() {
             let t = st.thread;
-            if !chans.contains_key(&t) {
-                let (ctx_tx, ctx_rx) = channel::<Cmd>();
-                let (res_tx, res_rx) = channel::<String>();
-                let h = std::thread::spawn(move || worker(ctx_rx, res_tx));
-                chans.insert(t, (ctx_tx, res_rx, h));
+            if !model.contains_key(&t) {
                 model.insert(t, Mode::HalfEven);
                 if any_set {
                     ctx.label("late-start");
                 }
             }
-            let (tx, rx, _) = chans.get(&t).unwrap();
-            tx.send(Cmd::Run(st.op.clone())).expect("worker alive");
-            let got = rx.recv().unwrap_or_else(|_| "worker died".to_string());
+            let got = results.get(idx).cloned().unwrap_or_else(|| "<no output: executor died>".to_string());
             ctx.sub();
             let md = model[&t];
             let others_differ = model.iter().any(|(k, v)| *k != t && *v != md);
@@ -305,10 +337,6 @@ impl Prop for C19 {
             1 => ctx.label("threads=1"),
             2 => ctx.label("threads=2"),
             _ => ctx.label("threads>=3"),
-        }
-        for (_, (tx, _, h)) in chans {
-            let _ = tx.send(Cmd::Quit);
-            let _ = h.join();
         }
         let _: Option<Decimal> = None;
     }
